@@ -113,28 +113,42 @@ class MDiagram:
             self.flags.add("self-edge-on-unregistered-node")
         self.edges.append((si, ti, i, j))
 
+    def free_shape(self, tensors, extra=None):
+        """Common collection shape of the nodes: their free (leading) axes are aligned from the LAST one backwards
+        (as numpy broadcasting aligns shapes); aligned axes must have equal length. None if incompatible."""
+        shapes = [tuple(tensors[t].shape[: tensors[t].free]) for t in self.nodes]
+        if extra is not None:
+            shapes.append(tuple(extra))
+        out: list[int] = []
+        for sh in shapes:
+            for k in range(1, len(sh) + 1):
+                if k <= len(out):
+                    if out[-k] != sh[-k]:
+                        return None
+                else:
+                    out.insert(0, sh[-k])
+        return tuple(out)
+
     def size(self, tensors) -> int:
         if not self.nodes:
             return 0
-        k = max([tensors[t].shape[0] for t in self.nodes if tensors[t].free] or [1])
-        return k * math.prod(math.prod(tensors[t].shape[tensors[t].free:]) for t in self.nodes)
-
-    def common_k(self, tensors):
-        ks = {tensors[t].shape[0] for t in self.nodes if tensors[t].free}
-        return ks
+        fs = self.free_shape(tensors) or ()
+        return math.prod(fs) * math.prod(math.prod(tensors[t].shape[tensors[t].free:]) for t in self.nodes)
 
     def evaluate(self, tensors: dict[int, MTensor]):
         """Exact value, number of covariant / contravariant result axes, the L1 bound of the sum and the number of
-        free (collection) axes of the result. Nodes with one leading collection axis of a common length k are
-        evaluated element by element (the free indices of all nodes are aligned), the results stacked in front."""
-        ks = self.common_k(tensors)
-        if len(ks) > 1:
+        free (collection) axes of the result. Collection nodes are evaluated element by element over the common
+        collection shape (free axes aligned from the last one backwards), the results stacked in front."""
+        B = self.free_shape(tensors)
+        if B is None:
             raise ModelError("collection axes of different lengths")
-        K = next(iter(ks)) if ks else None
         outs, bounds = [], []
         ncov = ncon = 0
-        for e in range(K if K is not None else 1):
-            arrs = [tensors[t].arr[e] if tensors[t].free else tensors[t].arr for t in self.nodes]
+        for e in (np.ndindex(*B) if B else [()]):
+            arrs = []
+            for t in self.nodes:
+                mt = tensors[t]
+                arrs.append(mt.arr[tuple(e[len(e) - mt.free:])] if mt.free else mt.arr)
             fr = [tensors[t].free for t in self.nodes]
             full = arrs[0]
             bound = np.abs(arrs[0]).astype(np.float64)
@@ -160,9 +174,10 @@ class MDiagram:
             full = np.transpose(full, perm) if perm else full
             outs.append(np.asarray(full))
             bounds.append(float(np.max(bound)) if np.size(bound) else 0.0)
-        if K is None:
+        if not B:
             return outs[0], ncov, ncon, bounds[0], 0
-        return np.stack(outs, axis=0), ncov, ncon, max(bounds) if bounds else 0.0, 1
+        res = np.stack(outs, axis=0)
+        return res.reshape(tuple(B) + res.shape[1:]), ncov, ncon, max(bounds) if bounds else 0.0, len(B)
 
 
 # ---------------------------------------------------------------------------------------------------------------------
@@ -187,7 +202,8 @@ def make_cfg(rng: random.Random) -> dict:
         "p_self_edge_new": rng.choice([0.0, 0.0, 0.02]),
         "exotic": rng.random() < 0.4,      # rank-0 nodes, length-1 axes, float/bool/int32 dtypes, non-contiguous layouts
         "many_small": rng.random() < 0.25,  # many low-rank nodes: diagrams with up to ~12 nodes
-        "colls": rng.choice([0, 0, 2, 3, 5]),   # length of the (single, common) collection axis of collection nodes
+        "colls": rng.choice([0, 0, 2, 3, 5]),   # length of the last (always shared) collection axis of collection nodes
+        "multi_free": rng.random() < 0.5, "colls2": rng.choice([2, 3]), "colls3": rng.choice([2, 3]),
         "warm": [],
     }
 
@@ -210,9 +226,13 @@ def gen_tensor_recipe(rng, cfg, slot) -> tuple[dict, MTensor]:
         arr = np.array(re, dtype=np.int64) + 1j * np.array(im, dtype=np.int64)
         rec = {"slot": slot, "k": "ctensor", "a": [re, im], "kw": {"cov": cov}}
     elif cfg.get("colls") and r >= 1 and rng.random() < 0.35:
-        # a collection of K such tensors (one leading free index): evaluated element by element
+        # a collection of such tensors with 1-3 leading free indices whose shape is a suffix of one common shape
+        # (J, I, K) of the run: evaluated element by element, free indices aligned from the last one backwards
         K = cfg["colls"]
-        big = [_nested(rng, shape) for _ in range(K)]
+        full_shape = [cfg.get("colls3", 2), cfg.get("colls2", 2), K]
+        nf = rng.choice([1, 1, 1, 2, 3]) if cfg.get("multi_free") else 1
+        fshape = full_shape[3 - nf:]
+        big = _nested(rng, fshape + shape)
         arr = np.array(big, dtype=np.int64)
         dt = "i"
         cap = 0
@@ -226,7 +246,7 @@ def gen_tensor_recipe(rng, cfg, slot) -> tuple[dict, MTensor]:
             arr = arr * rng.choice([20, 30])
             big = arr.tolist()
         rec = {"slot": slot, "k": "tensorcoll", "a": [big], "kw": {"cov": cov if cov else False, "rank": r, "dt": dt}}
-        return rec, MTensor(arr, [1 + i for i in cov], [1 + i for i in con], int8=cap, free=1)
+        return rec, MTensor(arr, [nf + i for i in cov], [nf + i for i in con], int8=cap, free=nf)
     else:
         arr = np.array(re, dtype=np.int64)
         kw = {"cov": cov if cov else False, "dt": "i"}
@@ -555,10 +575,11 @@ def model_tensors_from_recipes(recipes) -> dict[int, MTensor]:
             arr = np.array(a[0]).astype(np.int64)
             rel = kw.get("cov", True)
             rank = kw.get("rank", 1)
+            nf = arr.ndim - rank
             rel = list(range(rank)) if rel is True else ([] if rel is False else list(rel))
-            cov = [1 + i for i in rel]
-            ts[r["slot"]] = MTensor(arr, cov, [i for i in range(1, arr.ndim) if i not in cov],
-                                    int8=NARROW_CAP.get(kw.get("dt"), 0), free=1)
+            cov = [nf + i for i in rel]
+            ts[r["slot"]] = MTensor(arr, cov, [i for i in range(nf, arr.ndim) if i not in cov],
+                                    int8=NARROW_CAP.get(kw.get("dt"), 0), free=nf)
         elif k == "eps":
             n, cov = a
             ts[r["slot"]] = MTensor(W.eps_ref(n).astype(np.int64), range(n) if cov else [], [] if cov else range(n), True)
